@@ -21,13 +21,13 @@ def run(ctx):
     monitor.enable(*monitors(ctx))
     from .. import w_suite
     w_suite.maybe(ctx)      # thorough tier: the repository's own tests under this property's monitors
-    from .. import w_misc
-    w_misc.drive_session(ctx, ctx.tier)   # long-lived signature objects through many operations
+    from .. import w_misc, core
     ctx.floor('C01.merge_results', 500)
     ctx.floor('C01.merge_results_n3', 50)
-    w_alg.drive_merge(ctx, ctx.tier)
-    from .. import w_misc
-    w_misc.drive_merge_clients(ctx, ctx.tier)
+    core.run_slices(ctx, [
+        (6, lambda: w_alg.drive_merge(ctx, ctx.tier)),
+        (2, lambda: w_misc.drive_session(ctx, ctx.tier)),     # long-lived signature objects through many operations
+        (2, lambda: w_misc.drive_merge_clients(ctx, ctx.tier))])
 
 
 def replay(ctx, rec):
